@@ -57,6 +57,10 @@ pub fn threshold(vt: &VT, shape: &Shape, x: &[u8], valid: Option<&Value>) -> Res
 		}
 		if let Some((exact, tree)) = guarded(|| (m.payload)(x)).map_err(|p| format!("decode panicked: {}", p))? {
 			let need = exact + tree / 2;
+			let _ = (exact, tree);
+			if side::holds_no_heap(shape, v) && u != 0 {
+				return Err(format!("tracked usage {} for a value that holds no heap data ({})", u, value_short(v)));
+			}
 			if u < need {
 				return Err(format!(
 					"tracked usage {} is below the {} bytes of decoded data the value {} holds on the heap (exact part {}, tree part {} counted half)",
@@ -85,7 +89,18 @@ pub fn run(tier: Tier, reg: &[VT]) -> Report {
 	let acc = par(&types, |vt, acc| {
 		heartbeat(vt.name);
 		let shape = (vt.shape)();
-		for v in domain::values(&shape, &b) {
+		let mut vals = domain::values(&shape, &b);
+		// vectors spanning more than four preallocation chunks: every chunk must be charged
+		if vt.core || t {
+			if let Shape::Seq(k, e) = &shape {
+				if !e.zero_width() && !matches!(k, refmodel::SeqKind::Set) {
+					let unit = ref_enc(e, &domain::fill(e, 0)).map(|x| x.len().max(1)).unwrap_or(1);
+					let n = 5 * 16384 / unit + 3;
+					vals.push(Value::List((0..n).map(|i| domain::fill(e, i)).collect()));
+				}
+			}
+		}
+		for v in vals {
 			let Ok(enc) = ref_enc(&shape, &v) else { continue };
 			let enc = if shape.order_free() { (vt.encode)(&v) } else { enc };
 			acc.evaluations += 1;
